@@ -87,6 +87,20 @@ func (x *Enc) havocAll(h Heap, reach Term) Heap {
 			}
 		}
 	}
+	// variables captured by the closure under contract live in cells only the enclosing function and its
+	// closures can name: callees cannot write them
+	for _, n := range sortedKeys(x.topDerefs) {
+		d := x.topDerefs[n]
+		if d.ptr.fp != nil || len(d.ptr.ts) == 0 {
+			continue
+		}
+		for _, k := range x.keysOfAlloc(d.typ) {
+			if _, ok := x.keys[k]; !ok {
+				continue
+			}
+			x.sc.assert(eq(app("select", x.hget(nh, k), d.ptr.ts[0]), app("select", x.hget(h, k), d.ptr.ts[0])))
+		}
+	}
 	// frame: local (non-escaping) allocations keep their contents
 	for _, la := range x.localAllocs {
 		for _, k := range la.keys {
